@@ -109,14 +109,44 @@ def canon_conn(c):
             [[k, [canon_obj(o) for o in v]] for k, v in c.db.items()]]
 
 
+def startup(config):
+    """the start-up matchers, colour switch and pass-through switch as the tool itself derives them from its command line
+    (frontends/tui/arguments.parse_args), not re-derived by the harness; config = (display, stop, color, unprocessed, in_gdb)"""
+    import contextlib
+    import io
+    from frontends.tui import arguments
+    from core.util import check_gdb
+    argv = ['main.py'] + ([] if check_gdb() else ['-p'])      # inside gdb (the fake module counts) the mode is the plugin's own
+    if config[0]:
+        argv.append('--filter=' + config[0])
+    if config[1]:
+        argv.append('--break=' + config[1])
+    argv.append('--color' if config[2] else '--no-color')
+    if not config[3]:
+        argv.append('--supress')
+    try:
+        with contextlib.redirect_stdout(io.StringIO()), contextlib.redirect_stderr(io.StringIO()):
+            a = arguments.parse_args(argv)
+    except SystemExit as e:
+        raise RuntimeError('parse_args(%r) exited with %r instead of returning' % (argv, e.code))
+    return a.filter_matcher, a.stop_matcher, bool(a.show_color), bool(a.show_unprocessed_output)
+
+
 class FakeIO:
     """input file whose readline() runs the events between lines and records output positions"""
 
     def __init__(self, runner):
         self.r = runner
 
-    def readline(self):
-        return self.r.next_line()
+    def readline(self, size=-1):
+        # like a real text file: at most `size` characters when a size is given (the rest of the line comes with the next call)
+        if getattr(self, 'pending', ''):
+            line, self.pending = self.pending, ''
+        else:
+            line = self.r.next_line()
+        if size is not None and size >= 0 and len(line) > size:
+            line, self.pending = line[:size], line[size:]
+        return line
 
 
 
@@ -143,15 +173,22 @@ class LogRunner:
         from core.wl import message as wlmsg
         load_protocols()
         wlmsg.Message.base_time = None
-        implenv.set_color(config[2])
+        disp, stop, col, unproc = startup(config)
+        implenv.set_color(col)
         self.log = []
-        self.out = Output(False, bool(config[3]), Rec(self.log, 'out'), Rec(self.log, 'err'))
-        disp = matcher.always if config[0] is None else matcher.parse(config[0]).simplify()
-        stop = matcher.never if config[1] is None else matcher.parse(config[1]).simplify()
+        self.out = Output(False, unproc, Rec(self.log, 'out'), Rec(self.log, 'err'))
         self.cm = ConnectionManager()
         self.ctrl = Controller(self.out, self.cm, disp, stop)
+        # what the connections DELIVER to the controller, observed from outside (an oracle for "recorded" that does not read the
+        # controller's own list; a message whose resolution raises is in its connection's list but is never delivered)
+        self.delivered = []
+        _orig = self.ctrl.connection_got_new_message
+
+        def _spy(connection, message, _orig=_orig):
+            self.delivered.append((connection, message))
+            return _orig(connection, message)
+        self.ctrl.connection_got_new_message = _spy
         self.ui = PersistentUIState(self.ctrl)
-        self.parser = parse.Parser(self.out, self.cm)
         self.events = events
         self.render = render
         self.pos = 0
@@ -177,6 +214,10 @@ class LogRunner:
             elif e[0] == 'eof':
                 self.cur_start = len(self.log)
                 return ''
+            elif e[0] == 'intr':
+                # input ends because the user interrupts the read (Ctrl-C while waiting for the next line): same as end of input
+                self.cur_start = len(self.log)
+                raise KeyboardInterrupt()
             else:
                 self.cur_start = len(self.log)
                 self.readline_out_len.append(sum(1 for s, _ in self.log if s == 'out'))
@@ -184,11 +225,12 @@ class LogRunner:
         return ''
 
     def run(self):
-        self.parser.parse_all(FakeIO(self))
-        # cleanup belongs to the eof event if there is one, otherwise to a synthetic tail
+        # the tool's own entry point (reading, then closing what is still open); the closing notices belong to the eof event if
+        # there is one, otherwise to a synthetic tail
+        from backends.libwayland_debug_output import parse
+        parse.into_sink(FakeIO(self), self.out, self.cm)
         if self.cur_start is None:
             self.cur_start = len(self.log)
-        self.parser.cleanup()
         self._close_current()
         # commands after eof
         while self.pos < len(self.events):
